@@ -158,7 +158,8 @@ pub struct Child {
     // C13
     pub polls_in_cpoll: u32,
     pub last_cpoll: u64,
-    pub victim_wake_cpoll: Option<u64>,
+    /// (collection poll during/after which the wake happened, children held at that moment)
+    pub victim_wake_cpoll: Option<(u64, u64)>,
     /// which unit the child belongs to (0 = the subject; used when two subjects coexist)
     pub is_unit: bool,
 }
@@ -470,6 +471,7 @@ impl World {
         self.child_wakes_total += 1;
         if let Some(id) = self.occupant_of(data) {
             let cp = self.cpoll_id;
+            let held_now = self.held() as u64;
             let c = &mut self.children[id as usize];
             if c.accepted && c.drops == 0 && !c.completed {
                 c.owed = true;
@@ -478,7 +480,7 @@ impl World {
                     c.credit += 1;
                 }
                 if c.victim_wake_cpoll.is_none() {
-                    c.victim_wake_cpoll = Some(cp);
+                    c.victim_wake_cpoll = Some((cp, held_now));
                 }
             }
         }
